@@ -115,7 +115,11 @@ fn role_str(r: FrameRole) -> &'static str {
 
 impl Ctx {
     pub fn new() -> Ctx {
-        let dir = scratch_dir("core");
+        let dir = match std::env::var("MVH_FIXED_DIR") {
+            // the recorder shim must know the directory before the process starts
+            Ok(d) => tempfile::Builder::new().prefix("run-").tempdir_in(d).expect("fixed dir"),
+            Err(_) => scratch_dir("core"),
+        };
         let path = dir.path().join("m.mv2");
         let mut c = Ctx { dir, path, mem: None, ro: false, digests: HashMap::new(), embs: HashMap::new(), last_count: 0, ro_digest: None };
         c.register_payload(0, b"");
@@ -729,7 +733,9 @@ pub fn run(args: &[String]) -> i32 {
         writeln!(out, "{}", json!({"ev": "reset", "run": sid, "n": 0})).unwrap();
         for (n, op) in sc["ops"].as_array().expect("ops").iter().enumerate() {
             let nfid_before = ctx.mem.as_ref().map(|m| m.next_frame_id());
+            crate::util::fsrec_mark(&format!("begin {} {}", n + 1, op["op"].as_str().unwrap_or("")));
             let (res, extra) = exec(&mut ctx, op);
+            crate::util::fsrec_mark(&format!("end {}", n + 1));
             let name = op["op"].as_str().unwrap_or("");
             let force_full = op["full"].as_bool().unwrap_or(false)
                 || matches!(name, "create" | "open" | "open_ro" | "commit" | "vacuum" | "doctor" | "commit_skip" | "finalize" | "ticket");
